@@ -76,3 +76,25 @@ Theorem c04_old_reader_leaks_refuted :
   let s := fold_left (pnext_old 0) leak_run (pinit leak_reads) in
   cancelled s = true /\ fw_done (fw s) = true /\ forall es, rd (fold_left (pnext_old 0) es s) = RErr.
 Proof. exact old_reader_leaks. Qed.
+
+From CRS Require Import Model.Events Proofs.EventsProofs.
+(** Event listeners (internal/iobroker/events.go): what a listener receives is
+    exactly the events processed while it is registered - once each, in order -
+    whatever other listeners exist, come or go, including there having been none
+    at all while earlier shells lived and died; only the end of Do stops the
+    pump, and a running pump empties the event channel, so a broker waiting to
+    announce the 513th shell gets its turn.  The pump which gives up when it
+    finds nobody to tell is refuted. *)
+Theorem c04_listener_gets_its_window : forall cap l ops,
+  got_of l (prun cap pinit ops) = s_got (srun cap l sinit ops).
+Proof. exact pump_refines. Qed.
+Theorem c04_other_listeners_do_not_matter : forall cap l ops,
+  got_of l (prun cap pinit ops) = got_of l (prun cap pinit (filter (fun o => negb (about_other l o)) ops)).
+Proof. exact others_do_not_matter. Qed.
+Theorem c04_pump_keeps_running : forall cap ops, ~ In PStop ops -> p_run (prun cap pinit ops) = true.
+Proof. exact pump_keeps_running. Qed.
+Theorem c04_pump_drains : forall cap s, p_run s = true -> p_q (prun cap s (repeat PProc (length (p_q s)))) = [].
+Proof. exact pump_drains. Qed.
+Theorem c04_lazy_pump_refuted :
+  exists ops l, got_of l (fold_left (pstep_lazy 1024) ops pinit) <> s_got (srun 1024 l sinit ops).
+Proof. exact lazy_pump_refuted. Qed.
